@@ -8,6 +8,7 @@ from ..core import Check, classify_exc
 from ..g import g_list, g_nat, g_str
 
 IMPORTS = "TagAudit"
+WIMPORTS = "TagAudit TagWalk"
 
 # concrete, syntactically valid markup for each tag name (the analysis only looks at names)
 MARKUP = {
@@ -22,7 +23,18 @@ MARKUP = {
     "with": "{% with p: 1 %}", "endwith": "{% endwith %}", "translate": "{% translate %}",
     "plural": "{% plural %}", "endtranslate": "{% endtranslate %}", "call": "{% call m %}",
     "tablerow": "{% tablerow x in y %}", "endtablerow": "{% endtablerow %}",
+    "extends": "{% extends 'base' %}", "snippet": "{% snippet s %}", "endsnippet": "{% endsnippet %}",
+    "ifchanged": "{% ifchanged %}", "endifchanged": "{% endifchanged %}", "cycle": "{% cycle 1, 2 %}",
+    "increment": "{% increment n %}", "include": "{% include 'p' %}", "render": "{% render 'p' %}",
+    "endraw": "{% endraw %}", "enddoc": "{% enddoc %}", "endcomment": "{% endcomment %}", "raw": "{% raw %}", "doc": "{% doc %}",
+    "endliquid": "{% endliquid %}",
 }
+
+# the names the name-sequence families draw from: each is ONE template-level tag for the lexer (raw / doc / comment blocks, whose
+# content the lexer swallows, belong to the source-construct families below)
+SEQ_NAMES = ["if", "elsif", "else", "endif", "unless", "endunless", "for", "endfor", "break", "continue", "case", "when", "endcase",
+             "capture", "endcapture", "assign", "echo", "endassign", "foo", "endfoo", "bar", "macro", "endmacro", "block", "endblock",
+             "with", "endwith", "translate", "plural", "endtranslate", "call", "tablerow", "endtablerow"]
 
 _ENVS = {}
 
@@ -31,11 +43,15 @@ def get_env(kind):
     if kind not in _ENVS:
         from liquid import Environment
 
-        e = Environment()
+        if kind == "delims":
+            e = Environment(tag_start_string="<%", tag_end_string="%>", statement_start_string="<<", statement_end_string=">>")
+        else:
+            e = Environment()
         if kind == "extra":
             import liquid.extra as ex
 
             ex.add_tags(e)
+            e.add_tag(ex.SnippetTag)
         _ENVS[kind] = e
     return _ENVS[kind]
 
@@ -183,7 +199,7 @@ def gen(ck: Check):
         for toks in itertools.product(ALPHA_EXTRA, repeat=n):
             yield "extra", list(toks)
     # longer random sequences biased towards well-nested ones
-    names = list(MARKUP)
+    names = SEQ_NAMES
     for _ in range(1500 if ck.quick else 15000):
         kind = ck.rng.choice(["default", "extra"])
         toks, stack = [], []
@@ -209,21 +225,325 @@ def gen(ck: Check):
         yield kind, toks
 
 
+# ===================================================================== source constructs (TagWalk.v)
+# item: ('text',) | ('out',) | ('tag', name) | ('raw', [item]) | ('doc', [item]) | ('comment', [item]) | ('commentopen',)
+#       | ('hash',) | ('liquid', [(name, has_expr)])
+# Printed with the environment's delimiters and a seeded choice of whitespace control on every tag / output.
+def has_expr(name):
+    m = MARKUP[name]
+    return m[2:-2].strip() != name
+
+
+def item_source(items, kind, ws):
+    """ws: an iterator of booleans deciding the whitespace-control marks."""
+    ts, te, ss, se = ("<%", "%>", "<<", ">>") if kind == "delims" else ("{%", "%}", "{{", "}}")
+
+    def tag(inner):
+        return ts + ("-" if next(ws) else "") + " " + inner + " " + ("-" if next(ws) else "") + te
+
+    out = []
+    for it in items:
+        k = it[0]
+        if k == "text":
+            out.append("x")
+        elif k == "out":
+            out.append(ss + ("-" if next(ws) else "") + " v " + ("-" if next(ws) else "") + se)
+        elif k == "tag":
+            out.append(tag(MARKUP[it[1]][2:-2].strip()))
+        elif k in ("raw", "doc", "comment"):
+            out.append(tag(k) + item_source(it[1], kind, ws) + tag("end" + k))
+        elif k == "commentopen":
+            out.append(tag("comment"))
+        elif k == "hash":
+            out.append(tag("# note"))
+        else:
+            lines = "".join("\n  " + n + (" q" if he else "") for n, he in it[1])
+            out.append(ts + " liquid" + lines + ("\n" if it[1] else " ") + te)
+    return "".join(out)
+
+
+def visible_names(items):
+    """The tag names of the template proper: nothing inside raw / doc / comment is a tag (documented); a comment block shows its two tags."""
+    out = []
+    for it in items:
+        if it[0] == "tag":
+            out.append(it[1])
+        elif it[0] == "comment":
+            out += ["comment", "endcomment"]
+        elif it[0] == "commentopen":
+            out.append("comment")
+            break
+        elif it[0] == "hash":
+            out.append("#")
+        elif it[0] == "liquid":
+            out.append("liquid")
+    return out
+
+
+def real_tokens(kind, src):
+    from liquid.token import TOKEN_COMMENT, TOKEN_CONTENT, TOKEN_DOC, TOKEN_EXPRESSION, TOKEN_OUTPUT, TOKEN_TAG
+
+    names = {TOKEN_EXPRESSION: "TExpr", TOKEN_CONTENT: "TContent", TOKEN_OUTPUT: "TOutput", TOKEN_COMMENT: "TComment", TOKEN_DOC: "TDoc"}
+    try:
+        return [("TTag", t.value) if t.kind == TOKEN_TAG else (names[t.kind],) for t in get_env(kind).tokenizer()(src)]
+    except Exception as ex:  # noqa: BLE001
+        return ("err", classify_exc(ex))
+
+
+def analyse_src(kind, src):
+    try:
+        a = get_env(kind).analyze_tags_from_string(src)
+    except Exception as ex:  # noqa: BLE001
+        return ("err", classify_exc(ex))
+    cnt = lambda m: sorted((k, len(v)) for k, v in m.items() if v)  # noqa: E731
+    return ("rep", cnt(a.unclosed_tags), cnt(a.unexpected_tags), cnt(a.unknown_tags))
+
+
+def parses_src(kind, src):
+    try:
+        get_env(kind).from_string(src)
+        return True
+    except Exception:  # noqa: BLE001
+        return False
+
+
+def g_item(it):
+    k = it[0]
+    if k == "text":
+        return "IText"
+    if k == "out":
+        return "IOut"
+    if k == "tag":
+        return f"ITag {g_str(it[1])} {'true' if has_expr(it[1]) else 'false'}"
+    if k in ("raw", "doc", "comment"):
+        return {"raw": "IRaw", "doc": "IDoc", "comment": "IComment"}[k] + " " + g_list(g_item(x) for x in it[1])
+    if k == "commentopen":
+        return "ICommentOpen"
+    if k == "hash":
+        return "IHash"
+    return "ILiquid " + g_list(f"({g_str(n)}, {'true' if he else 'false'})" for n, he in it[1])
+
+
+def g_tok(t):
+    return f"TTag {g_str(t[1])}" if t[0] == "TTag" else t[0]
+
+
+TOP_DEFAULT = ["if", "else", "elsif", "endif", "for", "endfor", "break", "case", "when", "endcase", "assign", "echo", "foo", "endfoo",
+               "capture", "endcapture", "unless", "endunless", "tablerow", "endtablerow", "ifchanged", "endifchanged", "cycle",
+               "increment", "include", "render", "continue", "endraw", "enddoc", "endcomment", "endliquid", "bar"]
+TOP_EXTRA = ["macro", "endmacro", "block", "endblock", "with", "endwith", "translate", "plural", "endtranslate", "call", "extends",
+             "snippet", "endsnippet"]
+
+
+def gen_items(ck: Check):
+    rng = ck.rng
+
+    def body(depth):
+        """what may stand inside raw / doc / comment: anything but their own end tags (and no unclosed comment)"""
+        out = []
+        for _ in range(rng.randrange(0, 4)):
+            r = rng.random()
+            if r < 0.5:
+                out.append(("tag", rng.choice(["if", "endif", "foo", "for", "else", "assign", "endfoo", "break"])))
+            elif r < 0.7:
+                out.append(("text",))
+            elif r < 0.8:
+                out.append(("out",))
+            elif depth < 2:
+                out.append(("comment", body(depth + 1)))
+        return out
+
+    def lines():
+        out, stack = [], []
+        for _ in range(rng.randrange(0, 5)):
+            r = rng.random()
+            if r < 0.3:
+                b = rng.choice(["if", "for", "case", "unless"])
+                out.append((b, True))
+                stack.append(b)
+            elif r < 0.5 and stack:
+                out.append(("end" + stack.pop(), False))
+            elif r < 0.8:
+                out.append((rng.choice(["assign", "echo"]), True))
+            else:
+                out.append((rng.choice(["foo", "endif", "else", "break", "bar"]), rng.random() < 0.5))
+        if rng.random() < 0.7:
+            while stack:
+                out.append(("end" + stack.pop(), False))
+        return out
+
+    # systematic: every special construct alone, after an open block, inside a closed block, before a stray end tag
+    specials = [("raw", [("tag", "if")]), ("doc", [("tag", "if"), ("tag", "foo")]), ("comment", [("tag", "if"), ("tag", "foo")]),
+                ("comment", [("comment", [("tag", "endif")]), ("tag", "for")]), ("commentopen",), ("hash",), ("liquid", []),
+                ("liquid", [("if", True), ("echo", True), ("endif", False)]), ("liquid", [("if", True)]), ("liquid", [("foo", False)]),
+                ("liquid", [("endif", False)]), ("liquid", [("else", False)]), ("liquid", [("break", False)]),
+                ("liquid", [("assign", True), ("bar", True), ("for", True)]), ("out",), ("text",), ("raw", []), ("comment", [])]
+    for kind in ("default", "extra", "delims"):
+        for sp in specials:
+            for ctx in ([sp], [("tag", "if"), sp], [("tag", "if"), sp, ("tag", "endif")], [sp, ("tag", "endif")],
+                        [("tag", "for"), sp, ("tag", "else"), sp, ("tag", "endfor")], [sp, ("tag", "foo"), sp]):
+                yield kind, merge_text(ctx)
+
+    # seeded random item lists, biased towards templates that parse
+    for _ in range(600 if ck.quick else 10000):
+        kind = rng.choice(["default", "default", "extra", "delims"])
+        top = TOP_DEFAULT + (TOP_EXTRA if kind == "extra" else [])
+        items, stack = [], []
+        for _ in range(rng.randrange(2, 12)):
+            r = rng.random()
+            if r < 0.22:
+                b = rng.choice(["if", "for", "case", "unless", "capture", "tablerow", "ifchanged"] +
+                               (["macro", "block", "with", "translate", "snippet"] if kind == "extra" else []))
+                items.append(("tag", b))
+                stack.append(b)
+            elif r < 0.42 and stack:
+                items.append(("tag", "end" + stack.pop()))
+            elif r < 0.55 and stack:
+                inner = {"if": ["else", "elsif"], "unless": ["else", "elsif"], "for": ["else", "break", "continue"],
+                         "case": ["when", "else"], "translate": ["plural"]}.get(stack[-1], ["assign"])
+                items.append(("tag", rng.choice(inner)))
+            elif r < 0.65:
+                items.append(("tag", rng.choice(["assign", "echo", "cycle", "increment", "include", "render"] + (["call"] if kind == "extra" else []))))
+            elif r < 0.72:
+                items.append(("tag", rng.choice(top)))
+            elif r < 0.78:
+                items.append(rng.choice([("text",), ("out",)]))
+            elif r < 0.83:
+                items.append(("raw", body(0)))
+            elif r < 0.87:
+                items.append(("doc", body(0)))
+            elif r < 0.92:
+                items.append(("comment", body(0)))
+            elif r < 0.95:
+                items.append(("hash",))
+            elif r < 0.99:
+                items.append(("liquid", lines()))
+            else:
+                items.append(("commentopen",))
+        if rng.random() < 0.6:
+            while stack:
+                items.append(("tag", "end" + stack.pop()))
+        if ("commentopen",) in items:
+            # an unclosed comment tag owns the rest of the source: no endcomment may follow it
+            k = items.index(("commentopen",))
+            items = items[:k + 1] + [it for it in items[k + 1:] if it not in (("tag", "endcomment"), ("commentopen",))]
+        yield kind, merge_text(items)
+
+
+def merge_text(items):
+    """adjacent pieces of text are one piece of text"""
+    out = []
+    for it in items:
+        if it[0] == "text" and out and out[-1][0] == "text":
+            continue
+        out.append(it)
+    return out
+
+
+def liquid_line_names(items):
+    return [n for it in items if it[0] == "liquid" for n, _ in it[1]]
+
+
+def run_items(ck: Check, genv, defs):
+    import random
+
+    cases, expected, lexcases, lexexpected, meta = [], [], [], [], []
+    pcases, pexpected, pmeta = [], [], []
+    seen_sig = {}
+    for kind, items in gen_items(ck):
+        wsr = random.Random(ck.rng.randrange(1 << 30))
+        src = item_source(items, kind, iter(lambda: wsr.random() < 0.3, None))
+        toks = real_tokens(kind, src)
+        rep = analyse_src(kind, src)
+        parses = parses_src(kind, src)
+        names = visible_names(items)
+        tabkind = "default" if kind == "delims" else kind
+        ck.note_case(("items", kind, repr(items)), nontrivial=any(it[0] in ("raw", "doc", "comment", "commentopen", "hash", "liquid") for it in items))
+        ck.count(f"items.{kind}")
+        ck.count("items.parses_strict" if parses else "items.rejected_strict")
+        found = []
+        if isinstance(toks, tuple):
+            found.append((f"lexer-raises:{toks[1]}", f"the template lexer raised {toks[1]} on a source built from complete constructs"))
+        else:
+            found += oracle(tabkind, names, rep, parses)
+            # clause 3 inside a liquid tag: an unknown tag name written on a line of {% liquid %} is a tag of the template too
+            blocks, inlines, inner = env_tables(tabkind)
+            reg = {n for n, _ in blocks} | set(inlines)
+            inner_names = {x for _, v in inner for x in v}
+            if rep[0] == "rep":
+                for t in sorted(set(liquid_line_names(items))):
+                    if t not in reg and t not in inner_names and not t.startswith("end") and t not in dict(rep[3]):
+                        found.append(("tags-inside-liquid-tag-not-audited",
+                                      f"unknown tag {t} on a line of a liquid tag is not reported (the tag's lines are one unscanned expression token)"))
+                        break
+        for sig, what in found:
+            if seen_sig.get(sig, 0) < 2:
+                seen_sig[sig] = seen_sig.get(sig, 0) + 1
+                ck.violation("impl-violation", sig, f"[{kind}] {src!r}: {what}",
+                             {"type": "items", "env": kind, "items": items, "source": src, "analysis": rep, "parses_strict": parses})
+        gcase = f"{{| i_env := env_{tabkind}; i_items := {g_list(g_item(it) for it in items)} |}}"
+        if not isinstance(toks, tuple):
+            lexcases.append(gcase)
+            lexexpected.append(g_list(g_tok(t) for t in toks))
+        cases.append(gcase)
+        expected.append(g_obs(rep))
+        meta.append((kind, items, src, rep, toks))
+        if parses and without_skipped_regions(names) is None:
+            pcases.append((tabkind == "extra", gcase))
+            pmeta.append((kind, items, src))
+    ck.sample({"env": meta[len(meta) // 2][0], "source": meta[len(meta) // 2][2], "analysis": meta[len(meta) // 2][3]})
+    both = [(c, f"({le}, {ex})", m) for c, ex, m, le in
+            ((c, ex, m, g_list(g_tok(t) for t in m[4])) for c, ex, m in zip(cases, expected, meta) if not isinstance(m[4], tuple))]
+    mm = ck.coq_mismatches("walk", WIMPORTS, "run_both", "both_match", "icase", "list tok * obs", [b[0] for b in both], [b[1] for b in both],
+                           chunk=max(250, -(-len(both) // 4)), preamble=defs)
+    ck.traces += 2 * len(both)
+    for i in mm[:3]:
+        kind, items, src, rep, toks = both[i][2]
+        model = ck.coq_eval(WIMPORTS, [f"run_both {both[i][0]}"], preamble=defs)[0]
+        ck.violation("correspondence", "c21-walk-correspondence",
+                     f"[{kind}] {src!r}: the template lexer yields {toks} and analyze_tags_from_string reports {rep}; TagWalk.lex_items / "
+                     "TagWalk.analyze_items say something else",
+                     {"type": "items", "env": kind, "items": items, "source": src, "tokens": toks, "impl": rep, "model": model,
+                      "broken": "correspondence TagWalk.lex_items ~ Environment.tokenizer, TagWalk.run_items ~ analyze_tags_from_string "
+                                "(theorems C21_walk_*, C21_parsed_*)"}, no_input=True)
+    for extra in (False, True):
+        sub = [(c, m) for (x, c), m in zip(pcases, pmeta) if x == extra]
+        mm = ck.coq_mismatches("parse" + str(int(extra)), WIMPORTS, f"run_parses {'true' if extra else 'false'}", "Bool.eqb", "icase", "bool",
+                               [c for c, _ in sub], ["true"] * len(sub), chunk=1500, preamble=defs)
+        ck.traces += len(sub)
+        for i in mm[:3]:
+            kind, items, src = sub[i][1]
+            ck.violation("correspondence", "c21-parser-correspondence",
+                         f"[{kind}] {src!r} parses in strict mode but TagTree.parse_template rejects it: the hypothesis of C21_parsed_report no longer "
+                         "covers what the parser accepts",
+                         {"type": "items", "env": kind, "items": items, "source": src,
+                          "broken": "correspondence TagTree.parse_template >= strict parser (theorem C21_parsed_report)"}, no_input=True)
+
+
 def run(ck: Check) -> None:
     ck.rule = (
         "all tag-name sequences of length <=4 (quick) / <=5 over 14 names (block, inner, end, inline, unknown, stray and bad end tags) in "
         "the default environment and <=3 / <=4 over 13 names in the extra environment (exhaustive), plus seeded random sequences of length "
-        "3-13 biased towards well-nested templates; each name is written with valid markup. Non-trivial = contains a block or end tag; "
-        "distinct = distinct (environment, sequence)."
+        "3-13 biased towards well-nested templates; each name is written with valid markup. SOURCE CONSTRUCTS (TagWalk.v): every special "
+        "construct -- raw / doc / comment blocks with tags inside (nested comments too), an unclosed comment, the inline comment tag, liquid "
+        "tags (empty, balanced, with an unclosed block, an unknown tag, a stray end / else / break on a line), output, text -- alone, after an "
+        "open block, inside a closed block, before a stray end tag, inside for/else, around an unknown tag, in three environments (default, "
+        "extra = liquid.extra's tags + snippet, default tags behind the delimiters <% %> << >>), plus seeded random templates of 2-11 "
+        "constructs over 32 + 13 tag names biased towards templates that parse; every tag and output statement carries a seeded choice of "
+        "whitespace-control marks. Non-trivial = contains a block or end tag / a special construct; distinct = distinct (environment, case)."
     )
     ck.exhaustive = True
     ck.trusted_base = [
         "Coq 8.16.1 kernel + vm_compute",
-        "harness: generator, markup table, Gallina printer, extraction of the tag register tables from the live Environment (props/c21.py)",
-        "modelled not verified: the template lexer (tag names are taken as given), Python dict/set iteration",
+        "harness: generators, markup table, source printer, Gallina printers, extraction of the tag register tables from the live Environment "
+        "(props/c21.py)",
+        "modelled not verified: the template lexer, at the level of which token KINDS each source construct yields (TagWalk.lex_items, compared "
+        "with Environment.tokenizer() on every generated source); Python dict/set iteration",
         "assumed: no tag is named 'endend...' (the bad-end-tag pass reads a dict it is still filling)",
     ]
-    ck.assumptions = ["the strict parser's accepted language is included in TagAudit.wellnested plus break/continue outside for (validated on every generated sequence that parses)"]
+    ck.assumptions = ["the strict parser's accepted language is included in what TagTree.parse_template accepts (the block parser model of C04) "
+                      "plus the sources accepted only through the if/unless extraneous-else skip rule (validated on every generated source that "
+                      "parses; the older TagAudit.wellnested grammar is still validated on the name sequences)"]
     ck.proof()
     genv = {k: g_env(k) for k in ("default", "extra")}
     cases, expected, meta = [], [], []
@@ -272,6 +592,15 @@ def run(ck: Check) -> None:
                      {"type": "tags", "env": kind, "toks": toks, "source": source_of(toks), "impl": rep, "model": model,
                       "broken": "correspondence TagAudit.run_case ~ Environment.analyze_tags_from_string (theorems C21_*)"},
                      no_input=True)
+    cons = ck.coq_eval(WIMPORTS, ["consistentb env_default TagTree.std_blocks TagTree.std_inlines", "consistentb env_extra ext_blocks ext_inlines"],
+                       preamble=defs)
+    ck.extra["consistentb_on_live_tables"] = cons
+    if [w.split(":")[0].strip() for w in cons] != ["true", "true"]:
+        ck.violation("correspondence", "c21-consistent-register",
+                     "the live tag register is no longer consistent with the parser's register of TagTree.v / TagWalk.v, the hypothesis of C21_parsed_report",
+                     {"type": "wf", "tables": {k: env_tables(k) for k in ("default", "extra")}, "consistentb": cons,
+                      "broken": "hypothesis consistentb of theorem C21_parsed_report"}, no_input=True)
+    run_items(ck, genv, defs)
     mm = ck.coq_mismatches("wn", IMPORTS, "run_wellnested", "Bool.eqb", "case", "bool", wcases, wexpected, chunk=2500, preamble=defs)
     ck.traces += len(wcases)
     for i in mm[:3]:
@@ -286,6 +615,22 @@ def run(ck: Check) -> None:
 
 def replay(data) -> int:
     case = data["case"]
+    if case.get("type") == "items":
+        items = case["items"]
+        rep = analyse_src(case["env"], case["source"])
+        parses = parses_src(case["env"], case["source"])
+        tabkind = "default" if case["env"] == "delims" else case["env"]
+        print("source:", case["source"])
+        print("analysis:", rep, "parses in strict mode:", parses)
+        bad = oracle(tabkind, visible_names(items), rep, parses)
+        blocks, inlines, inner = env_tables(tabkind)
+        reg = {n for n, _ in blocks} | set(inlines) | {x for _, v in inner for x in v}
+        if rep[0] == "rep" and any(t not in reg and not t.startswith("end") and t not in dict(rep[3]) for t in liquid_line_names(items)):
+            bad.append(("tags-inside-liquid-tag-not-audited", "unknown tag on a line of a liquid tag is not reported"))
+        for sig, what in bad:
+            print(" -", sig, what)
+        print(("VIOLATION reproduced" if bad else "not reproduced") + f" property={data['property']}")
+        return 1 if bad else 0
     if case.get("type") != "tags":
         print("replay names a proof/correspondence obligation:", case)
         return 1
